@@ -17,13 +17,14 @@ structure Good (s : Sys) : Prop where
   tinv : TInv s
   einv : EInv s
   sinv : SInv s
+  sig : GInvSig s
 
 theorem good_init (ca cb : SideCfg) (h : Compatible ca cb) : Good (Sys.init ca cb) :=
-  ⟨inv_init ca cb, tinv_init ca cb h.ab h.ba, einv_init ca cb, sinv_init ca cb⟩
+  ⟨inv_init ca cb, tinv_init ca cb h.ab h.ba, einv_init ca cb, sinv_init ca cb, siginv_init ca cb⟩
 
 theorem good_step (s s' : Sys) (ev : Event) (hg : Good s) (h : s.step ev = .ok s') : Good s' :=
   ⟨inv_step s s' ev hg.inv h, tinv_step s s' ev hg.inv hg.tinv h, einv_step s s' ev hg.inv hg.einv h,
-   sinv_step s s' ev hg.inv hg.sinv h⟩
+   sinv_step s s' ev hg.inv hg.sinv h, siginv_step s s' ev hg.inv hg.sig h⟩
 
 theorem good_run : ∀ (evs : List Event) (s s' : Sys), Good s → s.run evs = .ok s' → Good s'
   | [], s, s', hg, h => by simp only [Sys.run, Except.ok.injEq] at h; subst h; exact hg
@@ -51,6 +52,15 @@ theorem run_sinv : ∀ (evs : List Event) (s s' : Sys), Inv s → SInv s → s.r
     · simp at h
     · rename_i s1 hs1
       exact run_sinv es s1 s' (inv_step s s1 e hi hs1) (sinv_step s s1 e hi he hs1) h
+
+theorem run_siginv : ∀ (evs : List Event) (s s' : Sys), Inv s → GInvSig s → s.run evs = .ok s' → GInvSig s'
+  | [], s, s', _, he, h => by simp only [Sys.run, Except.ok.injEq] at h; subst h; exact he
+  | e :: es, s, s', hi, he, h => by
+    simp only [Sys.run] at h
+    split at h
+    · simp at h
+    · rename_i s1 hs1
+      exact run_siginv es s1 s' (inv_step s s1 e hi hs1) (siginv_step s s1 e hi he hs1) h
 
 /-- a path from receive stage 0 to send stage 1 contains the EOF message -/
 theorem LinkOK_zero_one : ∀ (l : List Msg), LinkOK 0 1 l → Msg.eof ∈ l
